@@ -82,6 +82,78 @@ Definition vk (ex : bool) (cur : list (path * str)) (q : path) : option kind :=
          end
   end.
 
+Definition toks (cur : list (path * str)) : Prop := forall e, In e cur -> Forall tok (fst e).
+
+Lemma toks_no_job_last : forall T q, Forall tok T -> is_prefix q T = true -> forall T', q <> T' ++ [s_job].
+Proof.
+  intros T q HT Hp T' E. apply is_prefix_spec in Hp. destruct Hp as [r Er]. subst q T.
+  rewrite <- app_assoc in HT. apply Forall_app in HT. destruct HT as [_ HT].
+  simpl in HT. inversion HT as [|? ? [_ [_ Hj]] _]; subst. congruence.
+Qed.
+
+Lemma find_none_ext : forall X (f : X -> bool) l, (forall x, In x l -> f x = false) -> find f l = None.
+Proof.
+  induction l as [|y l IH]; intro H; simpl; [reflexivity|].
+  rewrite (H y) by (left; reflexivity). apply IH. intros x Hx. apply H. right. exact Hx.
+Qed.
+
+Lemma find_app : forall X (f : X -> bool) a b,
+  find f (a ++ b) = match find f a with Some x => Some x | None => find f b end.
+Proof. induction a as [|x a IH]; intros; simpl; auto. destruct (f x); auto. Qed.
+
+Lemma find_some_in : forall (cur : list (path * str)) q e,
+  find (fun e : path * str => path_eqb q (fst e ++ [s_job])) cur = Some e -> In e cur /\ q = fst e ++ [s_job].
+Proof.
+  intros cur q e H. apply find_some in H. destruct H as [H1 H2]. apply path_eqb_eq in H2. auto.
+Qed.
+
+Lemma vk_dir_or_none : forall ex cur q T,
+  Forall tok T -> is_prefix q T = true -> vk ex cur q = Some KDir \/ vk ex cur q = None.
+Proof.
+  intros ex cur q T HT Hp. unfold vk. destruct q as [|x q']; [destruct ex; auto|].
+  rewrite find_none_ext.
+  2: { intros e _. apply path_eqb_false. eapply toks_no_job_last; eauto. }
+  destruct (existsb _ cur); auto.
+Qed.
+
+Lemma vk_free : forall ex cur T,
+  Forall tok T -> toks cur -> ~ In T (map fst cur) -> vk ex cur (T ++ [s_job]) = None.
+Proof.
+  intros ex cur T HT Hc Hnew. unfold vk.
+  destruct (T ++ [s_job]) as [|x l] eqn:El; [destruct T; discriminate|]. rewrite <- El. clear El x l.
+  match goal with |- context [find ?f cur] => destruct (find f cur) as [e0|] eqn:F end.
+  - exfalso. apply find_some in F. destruct F as [F1 F2]. apply path_eqb_eq in F2. apply app_inj_tail in F2. destruct F2 as [F2 _].
+    apply Hnew. rewrite F2. apply in_map. exact F1.
+  - match goal with |- (if ?b then _ else _) = _ => assert (b = false) as ->; [|reflexivity] end.
+    apply not_true_is_false. intro Ex. apply existsb_exists in Ex. destruct Ex as [e0 [Hin Hp]].
+    eapply (toks_no_job_last (fst e0) (T ++ [s_job])); eauto.
+Qed.
+
+Lemma vk_snoc : forall ex cur T src q,
+  Forall tok T -> ~ In T (map fst cur) -> (q = [] -> True) ->
+  vk true (cur ++ [(T, src)]) q =
+  if path_eqb q (T ++ [s_job]) then Some (KLnk src)
+  else if is_prefix q T then Some KDir
+  else vk ex cur q.
+Proof.
+  intros ex cur T src q HT Hnew _.
+  destruct q as [|x q'].
+  - simpl. destruct T; reflexivity.
+  - unfold vk. rewrite find_app. simpl find.
+    match goal with |- context [find ?f cur] => destruct (find f cur) as [e0|] eqn:F end.
+    + apply find_some in F. destruct F as [F1 F2]. apply path_eqb_eq in F2.
+      assert (path_eqb (x :: q') (T ++ [s_job]) = false) as ->.
+      { apply path_eqb_false. intro Eq. rewrite F2 in Eq. apply app_inj_tail in Eq. destruct Eq as [Eq _].
+        apply Hnew. rewrite <- Eq. apply in_map. exact F1. }
+      assert (is_prefix (x :: q') T = false) as ->; [|reflexivity].
+      apply not_true_is_false. intro Pr. eapply (toks_no_job_last T (x :: q')); eauto.
+    + destruct (path_eqb (x :: q') (T ++ [s_job])) eqn:Eq; [reflexivity|].
+      rewrite existsb_app. cbn [existsb fst]. rewrite Bool.orb_false_r.
+      destruct (is_prefix (x :: q') T) eqn:Pr.
+      * rewrite Bool.orb_true_r. reflexivity.
+      * rewrite Bool.orb_false_r. reflexivity.
+Qed.
+
 Section View.
 Variable P : path.                       (* the prefix, a plain absolute path below the root *)
 Hypothesis P_ne : P <> [].
@@ -91,24 +163,10 @@ Record Inv (w : node) (ex : bool) (cur : list (path * str)) : Prop := {
   inv_parent : dirs_to w (removelast P);
   inv_kinds : forall q, kind_at w (P ++ q) = vk ex cur q;
   inv_ex : ex = false -> cur = [];
-  inv_tok : forall e, In e cur -> Forall tok (fst e)
+  inv_tok : toks cur
 }.
 
-Lemma toks_no_job_last : forall T q, Forall tok T -> is_prefix q T = true -> forall T', q <> T' ++ [s_job].
-Proof.
-  intros T q HT Hp T' E. apply is_prefix_spec in Hp. destruct Hp as [r Er]. subst q T.
-  rewrite <- app_assoc in HT. apply Forall_app in HT. destruct HT as [_ HT].
-  simpl in HT. inversion HT as [|? ? [_ [_ Hj]] _]; subst. congruence.
-Qed.
 
-Lemma find_none_prefix : forall cur q T,
-  Forall tok T -> is_prefix q T = true ->
-  find (fun e : path * str => path_eqb q (fst e ++ [s_job])) cur = None.
-Proof.
-  intros cur q T HT Hp. induction cur as [|e cur IH]; simpl; [reflexivity|].
-  assert (path_eqb q (fst e ++ [s_job]) = false) as ->; [|exact IH].
-  apply path_eqb_false. eapply toks_no_job_last; eauto.
-Qed.
 
 Lemma removelast_app_last : forall X (l : list X) d, l <> [] -> removelast l ++ [last l d] = l.
 Proof. intros. symmetry. apply app_removelast_last. exact H. Qed.
@@ -132,15 +190,7 @@ Proof.
     + exists e0, (c :: d). repeat split; auto. intros _. simpl. apply omap_none. exact K.
 Qed.
 
-Lemma find_app : forall X (f : X -> bool) a b,
-  find f (a ++ b) = match find f a with Some x => Some x | None => find f b end.
-Proof. induction a as [|x a IH]; intros; simpl; auto. destruct (f x); auto. Qed.
 
-Lemma find_some_in : forall (cur : list (path * str)) q e,
-  find (fun e : path * str => path_eqb q (fst e ++ [s_job])) cur = Some e -> In e cur /\ q = fst e ++ [s_job].
-Proof.
-  intros cur q e H. apply find_some in H. destruct H as [H1 H2]. apply path_eqb_eq in H2. auto.
-Qed.
 
 Lemma prefix_cases : forall (q1 q2 T : path),
   q1 ++ q2 = P ++ T ->
@@ -172,59 +222,33 @@ Proof.
   intros w ex cur T src n cwd I HT Hnew.
   assert (HTp : Forall plain T) by (eapply Forall_impl; [|exact HT]; intros a [Ha _]; exact Ha).
   assert (Hplain : Forall plain (P ++ T)) by (apply Forall_app; auto).
-  (* the kinds along P ++ T *)
   assert (Hk : forall q1 q2, P ++ T = q1 ++ q2 -> kind_at w ([] ++ q1) = Some KDir \/ kind_at w ([] ++ q1) = None).
   { intros q1 q2 E. simpl. symmetry in E. destruct (prefix_cases q1 q2 T E) as [[r Er]|[q' [E1 E2]]].
     - left. apply (inv_parent _ _ _ I q1 r Er).
-    - subst q1. rewrite (inv_kinds _ _ _ I). unfold vk. destruct q' as [|x q'']; [destruct ex; auto|].
-      rewrite (find_none_prefix cur (x :: q'') T HT) by (apply is_prefix_spec; eauto).
-      destruct (existsb _ cur); auto. }
+    - subst q1. rewrite (inv_kinds _ _ _ I). apply (vk_dir_or_none ex cur q' T HT).
+      apply is_prefix_spec. eauto. }
   destruct (frontier w (P ++ T) [] (root_dir _ _ _ I) Hk) as [e [m [E [He Hm]]]]. simpl in E.
-  (* the link slot is free *)
   assert (Hfree : get w ((P ++ T) ++ [s_job]) = None).
   { apply omap_none. change (option_map kind_of (get w ((P ++ T) ++ [s_job]))) with (kind_at w ((P ++ T) ++ [s_job])).
-    rewrite <- app_assoc. rewrite (inv_kinds _ _ _ I). unfold vk.
-    destruct (T ++ [s_job]) as [|x l] eqn:El; [destruct T; discriminate|]. rewrite <- El. clear El x l.
-    destruct (find _ cur) as [e0|] eqn:F.
-    - exfalso. apply find_some_in in F. destruct F as [F1 F2]. apply app_inj_tail in F2. destruct F2 as [F2 _].
-      apply Hnew. rewrite F2. apply in_map. exact F1.
-    - assert (existsb (fun e0 : path * str => is_prefix (T ++ [s_job]) (fst e0)) cur = false) as ->; [|reflexivity].
-      apply not_true_is_false. intro Ex. apply existsb_exists in Ex. destruct Ex as [e0 [Hin Hp]].
-      eapply (toks_no_job_last (fst e0) (T ++ [s_job])); eauto. apply (inv_tok _ _ _ I). exact Hin. }
+    rewrite <- app_assoc. rewrite (inv_kinds _ _ _ I). apply vk_free; auto. apply (inv_tok _ _ _ I). }
   exists (linked w e m s_job src), (N.of_nat (length m)).
   rewrite E in *.
   split; [|split].
   - apply make_link_plain; auto.
     + rewrite <- E. destruct P; [congruence|discriminate].
     + apply plain_job.
-  - (* the invariant *)
-    constructor.
+  - constructor.
     + intros d1 d2 Ed. rewrite kind_linked by auto.
       assert (Pr : is_prefix d1 (e ++ m) = true).
       { rewrite <- E. apply is_prefix_spec. exists (d2 ++ [last P []] ++ T).
-        rewrite app_assoc. rewrite <- Ed. rewrite <- app_assoc. rewrite (app_assoc _ _ T).
-        rewrite <- P_split. reflexivity. }
+        transitivity ((removelast P ++ [last P []]) ++ T); [rewrite <- P_split; reflexivity|].
+        rewrite Ed. rewrite <- !app_assoc. reflexivity. }
       rewrite Pr.
       destruct (path_eqb d1 ((e ++ m) ++ [s_job])) eqn:Eq; [|reflexivity].
       apply path_eqb_eq in Eq. apply is_prefix_length in Pr. rewrite Eq, app_length in Pr. simpl in Pr. lia.
     + intro q. rewrite kind_linked by auto. rewrite <- E.
       rewrite <- (app_assoc P T). rewrite path_eqb_app_l, is_prefix_app_l.
-      rewrite (inv_kinds _ _ _ I).
-      destruct q as [|x q'].
-      * simpl. destruct T; reflexivity.
-      * unfold vk. rewrite find_app. simpl find.
-        destruct (find (fun e0 : path * str => path_eqb (x :: q') (fst e0 ++ [s_job])) cur) as [e0|] eqn:F.
-        -- apply find_some_in in F. destruct F as [F1 F2].
-           assert (path_eqb (x :: q') (T ++ [s_job]) = false) as ->.
-           { apply path_eqb_false. intro Eq. rewrite F2 in Eq. apply app_inj_tail in Eq. destruct Eq as [Eq _].
-             apply Hnew. rewrite <- Eq. apply in_map. exact F1. }
-           assert (is_prefix (x :: q') T = false) as ->; [|reflexivity].
-           apply not_true_is_false. intro Pr. eapply (toks_no_job_last T (x :: q')); eauto.
-        -- destruct (path_eqb (x :: q') (T ++ [s_job])) eqn:Eq; [reflexivity|].
-           rewrite existsb_app. simpl existsb. rewrite Bool.orb_false_r.
-           destruct (is_prefix (x :: q') T) eqn:Pr.
-           ++ rewrite Bool.orb_true_r. reflexivity.
-           ++ rewrite Bool.orb_false_r. reflexivity.
+      rewrite (inv_kinds _ _ _ I). symmetry. apply vk_snoc; auto.
     + discriminate.
     + intros e0 Hin. apply in_app_or in Hin. destruct Hin as [Hin|[<-|[]]]; [apply (inv_tok _ _ _ I); exact Hin|exact HT].
   - intros r Hr. rewrite kind_linked by auto. rewrite <- E.
@@ -235,5 +259,58 @@ Proof.
       destruct (prefix_cases r u T Eu) as [[r' Er]|[q' [E1 _]]].
       * symmetry. apply (inv_parent _ _ _ I r r' Er).
       * subst r. rewrite is_prefix_app in Hr. discriminate.
+Qed.
+
+Definition key_of (e : path * path) : path := fst e ++ [s_job].
+
+Lemma tok_key_not_abs : forall T, Forall tok T -> is_abs (T ++ [s_job]) = false.
+Proof.
+  intros T HT. destruct T as [|c T]; [reflexivity|]. simpl.
+  inversion HT as [|? ? [Hc _] _]; subst. destruct c; [exfalso; eapply plain_nonempty; eauto|].
+  destruct (T ++ [s_job]); reflexivity.
+Qed.
+
+Lemma pjoin_key : forall T, Forall tok T -> pjoin (A P) (T ++ [s_job]) = A ((P ++ T) ++ [s_job]).
+Proof.
+  intros T HT. unfold pjoin. rewrite tok_key_not_abs by exact HT. unfold A. simpl. rewrite <- app_assoc. reflexivity.
+Qed.
+
+Definition placed (cwd : path) (e : path * path) : path * str :=
+  (fst e, link_target cwd (A P) (key_of e) (snd e)).
+
+Definition frame (w w' : node) : Prop := forall r, is_prefix P r = false -> kind_at w' r = kind_at w r.
+
+Lemma link_all_spec : forall L w ex cur n cwd lk,
+  Inv w ex cur ->
+  (forall e, In e L -> Forall tok (fst e)) -> NoDup (map fst L) ->
+  (forall e, In e L -> ~ In (fst e) (map fst cur)) ->
+  (forall e, In e L -> alookup (join_sep (key_of e)) lk = Some (snd e)) ->
+  exists w' k,
+    link_all (w, n) cwd (A P) lk (map key_of L) = ok (w', (n + k)%N) /\
+    (L <> [] -> (0 < k)%N) /\
+    Inv w' (ex || negb (is_nil L)) (cur ++ map (placed cwd) L) /\ frame w w'.
+Proof.
+  induction L as [|e L IH]; intros w ex cur n cwd lk I Ht Hnd Hnew Hlk.
+  - exists w, 0%N. simpl. rewrite app_nil_r, Bool.orb_false_r, N.add_0_r.
+    split; [reflexivity|]. split; [congruence|]. split; [exact I|]. intros r Hr. reflexivity.
+  - simpl map. simpl link_all. rewrite (Hlk e) by (left; reflexivity).
+    unfold key_of at 2. rewrite pjoin_key by (apply Ht; left; reflexivity).
+    destruct (link_step w ex cur (fst e) (link_target cwd (A P) (key_of e) (snd e)) n cwd I) as [w1 [k1 [M [I1 F1]]]].
+    { apply Ht. left. reflexivity. }
+    { apply Hnew. left. reflexivity. }
+    match goal with |- context [make_link ?a ?b ?c ?d] =>
+      replace (make_link a b c d) with (ok (w1, N.succ (n + k1))) by (symmetry; exact M) end.
+    unfold ok at 1.
+    inversion Hnd as [|? ? Hn1 Hn2]; subst.
+    destruct (IH w1 true (cur ++ [placed cwd e]) (N.succ (n + k1)) cwd lk) as [w2 [k2 [M2 [_ [I2 F2]]]]]; auto.
+    + intros e' He'. apply Ht. right. exact He'.
+    + intros e' He' Hin. rewrite map_app in Hin. apply in_app_or in Hin. destruct Hin as [Hin|[Hin|[]]].
+      * apply (Hnew e'); [right; exact He'|exact Hin].
+      * apply Hn1. change (fst e) with (fst (placed cwd e)). rewrite Hin. apply in_map. exact He'.
+    + intros e' He'. apply Hlk. right. exact He'.
+    + exists w2, (N.succ k1 + k2)%N. rewrite M2.
+      split; [f_equal; f_equal; lia|]. split; [intros _; lia|]. split.
+      * simpl is_nil. simpl negb. rewrite Bool.orb_true_r. simpl in I2. rewrite <- app_assoc in I2. exact I2.
+      * intros r Hr. rewrite (F2 r Hr). apply (F1 r Hr).
 Qed.
 End View.
